@@ -29,7 +29,7 @@ COMPONENTS = {"real": ["setigen.frame.Frame.add_signal", "setigen.funcs", "blimp
 ASSUMPTIONS = ["uses the returned signal (no independent evaluator; that would be C01)",
                "box profiles are excluded from the bounded-vs-unbounded comparison with integrate_f_profile (knife-edge)",
                "no fault kind applies (no I/O, no clock inside add_signal); a raising callback is C16's subject"]
-PROBES = ["unseeded_frame_and_unseeded_signal_function", "bounding_range_inside", "bounding_range_clipped_low", "bounding_range_clipped_high", "bounding_range_outside_below",
+PROBES = ["frame_in_two_slots_of_a_cadence", "unseeded_frame_and_unseeded_signal_function", "bounding_range_inside", "bounding_range_clipped_low", "bounding_range_clipped_high", "bounding_range_outside_below",
           "bounding_range_outside_above", "bounding_range_empty_or_reversed", "float32_frame_injection", "prior_noise",
           "superposition_checked", "other_frames_alive", "integrate_f_profile_bounded", "estimates_not_read_before_injection", "callback_error_in_injection", "frame_took_part_in_cadence_injection"]
 
@@ -75,7 +75,7 @@ def generate(rng, tier):
                     op["sig"]["path"]["kind"] = "constant"
         elif rng.random() < 0.08:
             # the frame is, for this one injection, a member of a cadence (at a time offset from the cadence's start)
-            op["via_cadence"] = {"offset": rng.choice([200.0, 16.0, 3600.0]), "pos": rng.choice(["second", "second", "first"])}
+            op["via_cadence"] = {"offset": rng.choice([200.0, 16.0, 3600.0]), "pos": rng.choice(["second", "second", "first", "twice"])}
             if rng.random() < 0.6:
                 op["sig"]["opts"] = dict(op["sig"]["opts"], doppler_smearing=True, smearing_subsamples=rng.choice([2, 5]))
                 if op["sig"]["path"]["kind"] == "array":
@@ -242,7 +242,12 @@ def execute(sc, ctx):
             vc = op["via_cadence"]
             lead = stg.Frame(fchans=fr.fchans, tchans=fr.tchans, df=fr.df, dt=fr.dt, fch1=fr.fch1, ascending=fr.ascending,
                              t_start=fr.t_start - vc["offset"], seed=1)
-            members = [lead, fr] if vc["pos"] == "second" else [fr, lead]
+            if vc["pos"] == "twice":
+                # a synthetic ABAB cadence: the same frame object occupies two slots
+                members = [lead, fr, lead, fr]
+                ctx.hit("frame_in_two_slots_of_a_cadence")
+            else:
+                members = [lead, fr] if vc["pos"] == "second" else [fr, lead]
             try:
                 stg.Cadence(members).add_signal(path, tp, fp, bpp, **kw)
             except Exception as e:
